@@ -24,6 +24,31 @@ CLAIMED = {
         note="As C03. Which of several missing names the error message mentions depends on map order; only the error "
              "class is compared.",
         ref="DESIGN.md §6 C04"),
+    "C06": dict(
+        technique="Coq proof about the PostgreSQL lexer (streaming transducer) and pqQuoteLiteral / Itoa + exhaustive literal-context harness",
+        text="C06_string: for every byte string without NUL, both standard_conforming_strings settings, every lexer state not "
+             "inside a quoted construct and every following text whose first non-blank character is not a quote, the quoted "
+             "literal lexes as exactly one string constant with the Go string as value (no content can end the literal, start "
+             "a comment or add tokens); C06_int: Itoa output is [-] one numeric constant that reads back as exactly z; bools "
+             "are the words true/false. Tie: the model of pqQuoteLiteral/compile is compared byte for byte with the "
+             "implementation on every case; all strings up to length 3 (quick) / 5 (thorough) over the critical alphabet in 27 "
+             "literal contexts plus random strings, ints, floats are lexed with the extracted lexer and compared with a "
+             "reference rendering.",
+        note="Partial: floats rely on strconv.FormatFloat as an oracle (read back bit-exactly with Python float()); the side "
+             "condition on the literal's left/right context is evaluated on every generated statement, not proved for all "
+             "statements. Known finding D9 (NUL byte). Trusted: lexer formalisation coq/Pg/Lexer.v.",
+        ref="DESIGN.md §6 C06"),
+    "C16": dict(
+        technique="Coq refinement proof (slice map -> insertion-ordered map) + exhaustive/random history harness",
+        text="Set/Delete of the slice map refine an insertion-ordered map (key order, latest value, other keys untouched, keys "
+             "unique), for every history incl. batch form and ApplyIf: C16_keys_unique, C16_flavour_preserved, "
+             "C16_batch_equiv, C16_select_json, C16_render. Tie: every history (exhaustive to length 3/5 over three keys, random "
+             "to length 40, both flavours) is run one by one, in batch form, through ApplyIf and as a select's JSON selection on "
+             "the implementation; SQL compared with the extracted model and entries (read back with the PostgreSQL lexer) with "
+             "an independent ordered-map specification.",
+        note="The model of Start/Prop/End is functional; that End() does not alias the batch builder's array is C05's effect "
+             "analysis and is exercised here by continuing the batch builder after End(). Defects D1, D2 were repaired (fix: commits).",
+        ref="DESIGN.md §6 C16"),
     "C14": dict(
         technique="Coq proof (run with validation on = run with validation off when no validation error is added) + correspondence",
         text="C14_neutral / C14_neutral_to_sql: for every value and both pretty settings, a validating rendering without "
